@@ -12,7 +12,7 @@ Kinds == {"values", "properties", "sections"}
 BoundsIn == (Lo..Hi) \cup {N}
 Inputs == {[t |-> "none"]} \cup {[t |-> "int", v |-> k] : k \in Lo..Hi} \cup
           {[t |-> "pair", a |-> a, b |-> b, l |-> l] : a \in BoundsIn, b \in BoundsIn, l \in BOOLEAN} \cup
-          {[t |-> tt] : tt \in {"str", "float", "pairfloat", "tuple1", "tuple3"}}
+          {[t |-> tt] : tt \in WrongForms \cup GreyForms}
 Init == cs \in {[kind |-> k, card |-> Unset, count |-> n] : k \in Kinds, n \in 0..MaxCount} /\ last = [name |-> "init"]
 SetPost(s, x) == IF FormatCard(x) = Raise THEN s ELSE [s EXCEPT !.card = FormatCard(x)]
 Next ==
